@@ -44,6 +44,9 @@ OPERATOR_BIN = {"operator.add": "Add", "operator.sub": "Sub", "operator.mul": "M
                 "operator.floordiv": "FloorDiv", "operator.mod": "Mod"}
 
 
+NAMEDTUPLE_ATTRS = ("_replace", "_asdict", "_fields", "_make", "index", "count", "__class__", "__len__")
+
+
 class Eff:
     """One entry of a trace."""
     __slots__ = ("k", "node", "mod", "d")
@@ -1103,6 +1106,9 @@ class Executor:
             if is_raise(b):
                 yield s1, b
                 continue
+            if b == EV and s1.kind in EVENT_FIELDS and node.attr not in EVENT_FIELDS[s1.kind] and node.attr not in NAMEDTUPLE_ATTRS:
+                # OnErrorMux has no item, OnCompletedMux no error, ...: AttributeError when such an event arrives
+                s1.trace.append(Eff("badfield", node, s1.frame.mod, field=node.attr, kind=s1.kind))
             yield s1, self._getattr(b, node.attr, s1)
 
     def _getattr(self, b, attr, st):
@@ -1451,6 +1457,9 @@ class Executor:
             eff = Eff("emit", node, mod, target=base, method=attr, arg=arg)
             yield from self._may_raise(st, eff, const(None))
             return
+        if base[0] == "attr" and base[1] == EV and base[2] == "key" and attr not in ("index", "count"):
+            # the key of an event is a tuple: it has no such method
+            st.trace.append(Eff("badfield", node, mod, field="key.%s()" % attr, kind=st.kind))
         if base == EVSTORE and attr in STORE_OPS:
             uid = st.new_uid()
             vals = args + [v for _, v in kwargs]
